@@ -67,12 +67,14 @@ theorem pushFrontNode_sinv {s : SSt} {L : List Nat} (e : Nat) (h : SInv s L) (he
 /-- `PushBackNode(e)` for a detached node (`e.next == nil`, not in the list). -/
 theorem pushBackNode_sinv {s : SSt} {L : List Nat} (e : Nat) (h : SInv s L) (he : e ∉ L)
     (hnil : s.next.get e = none) :
-    ∃ s', s.pushBackNode e = some s' ∧ SInv s' (L ++ [e]) ∧ s'.val = s.val ∧ s'.fresh = s.fresh := by
+    ∃ s', s.pushBackNode e = some s' ∧ SInv s' (L ++ [e]) ∧ s'.val = s.val ∧ s'.fresh = s.fresh ∧
+      ∀ n, n ∉ L ++ [e] → s'.next.get n = s.next.get n := by
   obtain ⟨hc, ht, hl, hn⟩ := h
   have hnd : (L ++ [e]).Nodup := by
     rw [List.nodup_append]; exact ⟨hn, by simp, by intro a ha b hb; simp at hb; subst hb; exact fun hh => he (hh ▸ ha)⟩
   rcases List.eq_nil_or_concat L with rfl | ⟨L0, w, hw⟩
-  · refine ⟨{ s with head := some e, tail := some e, len := s.len + 1 }, ?_, ⟨?_, ?_, ?_, hnd⟩, rfl, rfl⟩
+  · refine ⟨{ s with head := some e, tail := some e, len := s.len + 1 }, ?_, ⟨?_, ?_, ?_, hnd⟩, rfl, rfl,
+      fun n _ => rfl⟩
     · simp [SSt.pushBackNode, hl]
     · simp [ChainTo, hnil]
     · simp
@@ -82,7 +84,9 @@ theorem pushBackNode_sinv {s : SSt} {L : List Nat} (e : Nat) (h : SInv s L) (he 
     have htl : s.tail = some w := by rw [ht]; simp
     have hne : ¬ (s.len = 0) := by rw [hl]; simp; omega
     refine ⟨{ s with next := s.next.set w (some e), tail := some e, len := s.len + 1 }, ?_,
-      ⟨?_, ?_, ?_, hnd⟩, rfl, rfl⟩
+      ⟨?_, ?_, ?_, hnd⟩, rfl, rfl, fun n hn => by
+        have : n ≠ w := fun hh => hn (by simp [hh])
+        simp [PM.get_set, this]⟩
     · simp [SSt.pushBackNode, hne, htl]
     · simp only []
       have hwe : w ≠ e := by intro hh; subst hh; simp at he
@@ -101,7 +105,8 @@ theorem pushBackNode_sinv {s : SSt} {L : List Nat} (e : Nat) (h : SInv s L) (he 
 theorem removeFront_sinv {s : SSt} {L : List Nat} (h : SInv s L) :
     (L = [] → s.removeFront = some (s, none)) ∧
     (∀ x xs, L = x :: xs → ∃ s', s.removeFront = some (s', some x) ∧ SInv s' xs ∧
-      s'.next.get x = none ∧ s'.val = s.val) := by
+      s'.next.get x = none ∧ s'.val = s.val ∧ s'.fresh = s.fresh ∧
+      ∀ n, n ≠ x → s'.next.get n = s.next.get n) := by
   obtain ⟨hc, ht, hl, hn⟩ := h
   refine ⟨fun h0 => by subst h0; simp [SSt.removeFront, hl], fun x xs hL => ?_⟩
   subst hL
@@ -117,10 +122,10 @@ theorem removeFront_sinv {s : SSt} {L : List Nat} (h : SInv s L) :
     subst this
     refine ⟨{ s with head := s.next.get x, next := s.next.set x none, tail := none, len := s.len - 1 },
       by simp [SSt.removeFront, hne, hc.1, h1], ⟨hframe, by simp, by simp [hl], List.nodup_nil⟩,
-      by simp [PM.get_set], rfl⟩
+      by simp [PM.get_set], rfl, rfl, fun n hn => by simp [PM.get_set, hn]⟩
   · refine ⟨{ s with head := s.next.get x, next := s.next.set x none, len := s.len - 1 },
       by simp [SSt.removeFront, hne, hc.1, h1], ⟨hframe, ?_, by simp [hl], (List.nodup_cons.1 hn).2⟩,
-      by simp [PM.get_set], rfl⟩
+      by simp [PM.get_set], rfl, rfl, fun n hn => by simp [PM.get_set, hn]⟩
     cases xs with
     | nil => simp [hl] at h1
     | cons y ys => simp [ht, List.getLast?_cons_cons]
